@@ -31,6 +31,9 @@ let z_of_string (s : string) : z =
   if String.length s > 0 && s.[0] = '-' then Z.opp (Z.of_N (n_of_string (String.sub s 1 (String.length s - 1))))
   else Z.of_N (n_of_string s)
 
+let string_of_z (v : z) : string =
+  match v with Z0 -> "0" | Zpos p -> string_of_n (Npos p) | Zneg p -> "-" ^ string_of_n (Npos p)
+
 let rec nat_of_int i = if i <= 0 then O else S (nat_of_int (i - 1))
 let rec int_of_nat = function O -> 0 | S k -> 1 + int_of_nat k
 
@@ -91,6 +94,20 @@ let handle (ws : string list) : string =
                | "f", [f; acc; a; b] -> grid_fastcover_jobs g (n_of_string m) (n_of_string f) (n_of_string acc) (sp a b)
                | _ -> failwith "bad grid") in
            "OK" ^ String.concat "" (List.map (fun (d, k) -> " " ^ string_of_n d ^ ":" ^ string_of_n k) jobs))
+  | "entry" :: which :: d :: k :: steps :: a :: b :: rest ->
+      let e = (match which, rest with
+          | "c", [nb; cap] -> opt_entry_cover fuel (n_of_string d) (n_of_string k) (n_of_string steps) (sp a b)
+                                (n_of_string nb) (n_of_string cap)
+          | "f", [f; acc; nb; cap] -> opt_entry_fast fuel (n_of_string d) (n_of_string k) (n_of_string steps) (sp a b)
+                                        (n_of_string f) (n_of_string acc) (n_of_string nb) (n_of_string cap)
+          | _ -> failwith "bad entry") in
+      (match e with
+       | EntryErr -> "ERR"
+       | EntryHang -> "HANG"
+       | EntryJobs (st, spr, f, acc, jobs) ->
+           Printf.sprintf "OK %s %s %s %s %s" (string_of_n st) (string_of_z spr.sp_num) (string_of_n spr.sp_sh)
+             (string_of_n f) (string_of_n acc)
+           ^ String.concat "" (List.map (fun (d, k) -> " " ^ string_of_n d ^ ":" ^ string_of_n k) jobs))
   | ["id"; p; h] -> string_of_n (dict_id (n_of_string p) (n_of_string h))
   | ["gid"; hex] -> string_of_n (get_dict_id (bytes_of_hex hex))
   | ["fins"; cap; content; e] ->
